@@ -34,3 +34,36 @@ Proof.
   intro Ht. rewrite (pipe_run_local P t Ht). apply krun_wf; [|exact Ht].
   intro k. unfold kempty. split; [congruence | intros []].
 Qed.
+
+(* ---------- from the slot-level run to the list semantics of one lifetime ---------- *)
+From RxVerif Require Import Mux.LocalSemProofs.
+
+Theorem lifetime_outputs (P : list op) (t pre : list iev) (k : key) (xs : list item) : wf t ->
+  filter (on_key item k) t = pre ++ lifetime item k xs ->
+  sel item k t (raw_run P t) =
+    local_run P pre ++
+    ([Create k] :: map (map (Next k)) (fst (ltimed item (pipe_l P) xs))
+                ++ [map (Next k) (snd (ltimed item (pipe_l P) xs)) ++ [Done k]]).
+Proof.
+  intros Ht E. rewrite (pipe_lifetime P t pre (map (Next k) xs ++ [Done k]) k Ht E). f_equal.
+  apply krun_lifetime.
+Qed.
+
+(* a pipeline ends with the identity machine: it can be dropped *)
+Lemma lfeed_id : forall (o : list item) (u : unit), lfeed L_id u o = (u, o).
+Proof. induction o as [|x o IH]; intro u; cbn [lfeed]; [reflexivity|]. cbn [lnext L_id]. rewrite IH. reflexivity. Qed.
+Lemma lsteps_compose_id (L : lm) : forall xs a,
+  lsteps item (compose_l L L_id) (a, tt) xs = (fst (lsteps item L a xs), (snd (lsteps item L a xs), tt)).
+Proof.
+  induction xs as [|x xs IH]; intro a; cbn [lsteps]; [reflexivity|].
+  cbn [lnext compose_l]. destruct (lnext L a x) as [a1 o1]. rewrite lfeed_id. rewrite IH.
+  destruct (lsteps item L a1 xs) as [os a2]. reflexivity.
+Qed.
+Theorem ltimed_compose_id (L : lm) (xs : list item) : ltimed item (compose_l L L_id) xs = ltimed item L xs.
+Proof.
+  unfold ltimed. cbn [l0 compose_l L_id]. rewrite lsteps_compose_id.
+  destruct (lsteps item L (l0 L) xs) as [os a]. cbn [fst snd ldone compose_l]. rewrite lfeed_id. cbn [ldone L_id]. now rewrite app_nil_r.
+Qed.
+(* the local machine of a one-operator pipeline *)
+Lemma pipe_l_single (o : op) : pipe_l [o] = compose_l (bl item (den o)) L_id.
+Proof. reflexivity. Qed.
